@@ -30,7 +30,7 @@ def wnaf_form_steps(ctx, windows):
     chk = ctx.chk
     ex = C.new_executor(ctx, [], generics_hint={'wnaf_form': {'S': 'fr::FrRepr'}})
     f = ex.fn_by_name('wnaf_form')
-    heads = ex.blocks_calling(f, r'PrimeFieldRepr>::is_zero')
+    heads = ex.blocks_calling(f, r'PrimeFieldRepr>::is_zero', in_cycle=True)
     if len(heads) != 1:
         raise Inconclusive('wnaf_form: loop head not identified (%s)' % heads)
     head = heads[0]
@@ -93,7 +93,7 @@ def wnaf_exp_steps(ctx, proj, aff, gname, windows):
     D = models.GroupDomain(proj, aff).setup(1, proj, aff)
     ex = C.new_executor(ctx, D.models(), generics_hint={'wnaf_exp': {'G': proj}, 'wnaf_table': {'G': proj}})
     f = ex.fn_by_name('wnaf_exp')
-    heads = ex.blocks_calling(f, r'as Iterator>::next')
+    heads = ex.blocks_calling(f, r'as Iterator>::next', in_cycle=True)
     if len(heads) != 1:
         raise Inconclusive('wnaf_exp: loop head not identified')
     head = heads[0]
@@ -145,7 +145,7 @@ def wnaf_exp_steps(ctx, proj, aff, gname, windows):
         chk.ground('%s wnaf_table(w=%d) = [1, 3, 5, ..., 2^w - 1] * base, length 2^(w-1), junk discarded' % (gname, w),
                    vals == [2 * i + 1 for i in range(1 << (w - 1))], 'len %d' % len(vals))
     ft = ex.fn_by_name('wnaf_table')
-    theads = ex.blocks_calling(ft, r'as Iterator>::next')
+    theads = ex.blocks_calling(ft, r'as Iterator>::next', in_cycle=True)
     if len(theads) != 1:
         raise Inconclusive('wnaf_table: loop head not identified')
     for w in windows:
